@@ -147,10 +147,10 @@ PROPS = {
     ),
     "C05": dict(
         level="exploration",
-        rule="rapid state machine: trees of plain Subscribe/Clone up to depth 3 over a real controller; the stream (up to several hundred create/update/delete events over 6 keys) is published in bursts with at most EventBufsiz/4 events in flight between double-marker barriers; subscribers attach at generated moments, consumers read with generated per-event delays, the logger perturbs the schedule, GOMAXPROCS varies per shard. Oracle: each leaf's log is exactly a suffix ref[i:] of the published sequence with i <= the number of events published when its Subscribe/Clone returned; after each received event the leaf's Cache().Get never returns an older version. Non-trivial = >= 3 leaves at >= 2 depths, >= 1 subscriber attached after events were published, >= 50 events; distinct = hash of the history.",
+        rule="rapid state machine: trees of plain Subscribe/Clone up to depth 3 over a real controller; the stream (up to several hundred create/update/delete events over 6 keys) is published in bursts with at most EventBufsiz/4 events in flight between double-marker barriers; subscribers attach at generated moments, consumers read with generated per-event delays, the logger perturbs the schedule, GOMAXPROCS varies per shard. Oracle: each leaf's log is exactly a suffix ref[i:] of the published sequence with i <= the number of events published when its Subscribe/Clone returned; after each received event the leaf's Cache().Get never returns an older version. A further scenario stalls one library goroutine for 1.3 s at a drawn log call while fewer than one buffer of events is published: every subscriber must still hold exactly the published sequence. Non-trivial = >= 3 leaves at >= 2 depths, >= 1 subscriber attached after events were published, >= 50 events (stall scenario: the stall began while events were being published); distinct = hash of the history.",
         assumptions=["cases in which the harness itself overran a buffer are discarded and counted (none expected by construction)", "interleavings are perturbed, not enumerated"],
-        quick=[J("TestC05_FanOut", checks=50, shards=16, steps=50, procs=[1, 2, 4, 8, 16]), J("TestC05_RelistDiffOrder", checks=150, shards=6, procs=[2, 4, 1, 16, 2, 8])],
-        thorough=[J("TestC05_FanOut", checks=1500, shards=32, steps=60, procs=[1, 2, 4, 8, 16], timeout=2400), J("TestC05_RelistDiffOrder", checks=6000, shards=16, procs=[1, 2, 4, 8, 16], timeout=2400)],
+        quick=[J("TestC05_FanOut", checks=50, shards=16, steps=50, procs=[1, 2, 4, 8, 16]), J("TestC05_RelistDiffOrder", checks=150, shards=6, procs=[2, 4, 1, 16, 2, 8]), J("TestC05_StalledGoroutine", checks=6, shards=8, procs=[2, 4, 8, 16])],
+        thorough=[J("TestC05_FanOut", checks=1500, shards=32, steps=60, procs=[1, 2, 4, 8, 16], timeout=2400), J("TestC05_RelistDiffOrder", checks=6000, shards=16, procs=[1, 2, 4, 8, 16], timeout=2400), J("TestC05_StalledGoroutine", checks=60, shards=16, procs=[1, 2, 4, 8, 16], timeout=2400)],
     ),
     "C08": dict(
         level="exploration",
